@@ -7,6 +7,7 @@ import (
 	"fmt"
 	"math/rand"
 	"os"
+	"runtime"
 	"sort"
 	"strings"
 	"time"
@@ -240,10 +241,47 @@ func cmdCostCheck(args []string) int {
 			}
 		}
 	}
+	// (1b) every default handler on every short combination of value atoms (its own keywords, lengths, colours, the words that
+	// introduce optional parts such as inset, and separators): none may panic
+	sweepAtoms := append(append([]string{}, costAtoms...), "inset", "5px", "-1px", ",", "/", "rgb(0,0,0)", "0.5", "auto-fill", "\"a\"", "a", "")
+	for _, prop := range props {
+		h := css.GetDefaultHandler(prop)
+		try := func(v string) {
+			res.Execs++
+			if _, pm := callHandler(h, v); pm != "" {
+				input := `<span style="` + prop + `: ` + v + `">t</span>`
+				recipe := Recipe{{M: "NewPolicy"}, {M: "AllowElements", Names: []string{"span"}}, {M: "AllowStyles", Props: []string{prop}, Scope: "glob"}}
+				for i := range recipe {
+					recipe[i].norm()
+				}
+				_, _, _, pm2, _ := sanitizeCounted(BuildReal(recipe), input, 1000000)
+				if pm2 != "" {
+					add("panic:"+prop, fmt.Sprintf("Sanitize panicked on %q: %s", input, pm2), CostReplayFile{Kind: "style", Recipe: recipe, Input: input, Budget: 1000000})
+				}
+			}
+		}
+		for _, a := range sweepAtoms {
+			try(a)
+			for _, b := range sweepAtoms {
+				try(a + " " + b)
+				try(a + ", " + b)
+			}
+		}
+		for _, a := range []string{"inset", "none", "0", "5px", "red", ","} {
+			for _, b := range []string{"inset", "5px", "red", ",", "/"} {
+				for _, c := range []string{"inset", "5px", "red", "1", ","} {
+					try(a + " " + b + " " + c)
+				}
+			}
+		}
+	}
 	// (2) deep nesting, long attribute lists, many CSS escapes, many links: time must not blow up
 	ugc := Recipe{{M: "UGCPolicy"}, {M: "AllowStyles", Props: []string{"color", "font-family", "border", "background"}, Scope: "glob"}, {M: "AllowDataURIImages"},
 		{M: "AllowAttrs", Attrs: []string{"src", "href", "cite", "rel", "target"}, Scope: "els", Els: []string{"img", "a", "q", "audio", "iframe", "source", "input"}},
-		{M: "AllowElementsMatching", Pat: "^custom-"}, {M: "RewriteSrc", Fid: "f:" + FuncName(RewriteProxy)}, {M: "AddTargetBlankToFullyQualifiedLinks", B: true}}
+		{M: "AllowElementsMatching", Pat: "^custom-"}, {M: "RewriteSrc", Fid: "f:" + FuncName(RewriteProxy)}, {M: "AddTargetBlankToFullyQualifiedLinks", B: true},
+		// two element patterns that overlap (custom-x matches both), with attribute and style rules
+		{M: "AllowAttrs", Attrs: []string{"title"}, Scope: "pat", Pat: "^custom-"}, {M: "AllowAttrs", Attrs: []string{"class"}, Scope: "pat", Pat: "-x$"},
+		{M: "AllowStyles", Props: []string{"color"}, Scope: "pat", Pat: "^custom-"}, {M: "AllowStyles", Props: []string{"width"}, Scope: "pat", Pat: "-x$"}}
 	for i := range ugc {
 		ugc[i].norm()
 	}
@@ -265,6 +303,9 @@ func cmdCostCheck(args []string) int {
 		"data-uri":      func(n int) string { return `<img src="data:image/png;base64,` + strings.Repeat("iVBORw0K", n) + `">` },
 		"lt-flood":      func(n int) string { return strings.Repeat("<", n) + strings.Repeat("<a ", n) },
 		"font-families": func(n int) string { return `<span style="font-family: ` + strings.Repeat("a, ", n) + `b">x</span>` },
+		"pattern-elements": func(n int) string {
+			return strings.Repeat(`<custom-x title="t" class="c" style="color: red; width: 1px">x</custom-x>`, n)
+		},
 	}
 	// every URL value of the catalogue in every src/href/cite position, with every policy feature on: must return normally
 	for _, el := range []string{"img", "a", "q", "audio", "iframe", "source", "input"} {
@@ -292,7 +333,50 @@ func cmdCostCheck(args []string) int {
 		var prev time.Duration
 		for n := top / 8; n <= top; n *= 2 {
 			input := gens[name](n)
-			_, _, aborted, pm, dur := sanitizeCounted(pu, input, 50*n+100000)
+			// under a watchdog: a call that does not come back (or eats memory without bound) cannot be cancelled, so the
+			// finding is recorded, the result written and the process left at once
+			type outcome struct {
+				aborted bool
+				pm      string
+				dur     time.Duration
+			}
+			ch := make(chan outcome, 1)
+			go func() {
+				_, _, ab, pm, d := sanitizeCounted(pu, input, 50*n+100000)
+				ch <- outcome{ab, pm, d}
+			}()
+			var oc outcome
+			stuck := ""
+			tick := time.NewTicker(250 * time.Millisecond)
+			deadline := time.After(90 * time.Second)
+		wait:
+			for {
+				select {
+				case oc = <-ch:
+					break wait
+				case <-tick.C:
+					var ms runtime.MemStats
+					runtime.ReadMemStats(&ms)
+					if ms.HeapAlloc > 6<<30 {
+						stuck = fmt.Sprintf("generator %s n=%d (%d bytes): the heap passed %d MiB during one Sanitize call", name, n, len(input), ms.HeapAlloc>>20)
+						break wait
+					}
+				case <-deadline:
+					stuck = fmt.Sprintf("generator %s n=%d (%d bytes): Sanitize did not return within 90 s", name, n, len(input))
+					break wait
+				}
+			}
+			tick.Stop()
+			if stuck != "" {
+				add("no-return:"+name, stuck, CostReplayFile{Kind: "input", Recipe: ugc, Input: fmt.Sprintf("generator %s n=%d", name, n)})
+				res.Cases = res.Execs
+				if *outPath != "" {
+					os.WriteFile(*outPath, JSON(res), 0o644)
+				}
+				fmt.Printf("costcheck: execs=%d violations=%d (left early: %s)\n", res.Execs, len(res.Violations), stuck)
+				os.Exit(0)
+			}
+			aborted, pm, dur := oc.aborted, oc.pm, oc.dur
 			res.Execs++
 			res.Applicable["C14"]++
 			rf := CostReplayFile{Kind: "input", Recipe: ugc, Input: fmt.Sprintf("generator %s n=%d", name, n)}
@@ -361,6 +445,26 @@ func cmdCostCheck(args []string) int {
 	}
 	fmt.Printf("costcheck: execs=%d families=%d violations=%d\n", res.Execs, families, len(res.Violations))
 	return 0
+}
+
+// callHandler calls a handler and reports a panic as text.
+func callHandler(h func(string) bool, v string) (ok bool, panicked string) {
+	n := 0
+	css.VerifCount = func() {
+		n++
+		if n > 1000000 {
+			panic(budgetExceeded{n})
+		}
+	}
+	defer func() {
+		css.VerifCount = nil
+		if e := recover(); e != nil {
+			if _, isBudget := e.(budgetExceeded); !isBudget {
+				panicked = fmt.Sprint(e)
+			}
+		}
+	}()
+	return h(v), ""
 }
 
 func safeCall(h func(string) bool, v string) (ok bool) {
